@@ -359,7 +359,12 @@ func (se *SessionExecutor) bindStmtArgs(s *Stmt, nullBitmap, paramTypes, paramVa
 				return mysql.ErrMalformPacket
 			}
 
-			args[i] = float32(math.Float32frombits(binary.LittleEndian.Uint32(paramValues[pos : pos+4])))
+			f32 := math.Float32frombits(binary.LittleEndian.Uint32(paramValues[pos : pos+4]))
+			if math.IsNaN(float64(f32)) || math.IsInf(float64(f32), 0) {
+				// there is no SQL literal for NaN or an infinity; written as text they would be identifiers
+				return mysql.NewDefaultError(mysql.ErrWrongArguments, "stmt_execute")
+			}
+			args[i] = f32
 			pos += 4
 			continue
 
@@ -368,7 +373,11 @@ func (se *SessionExecutor) bindStmtArgs(s *Stmt, nullBitmap, paramTypes, paramVa
 				return mysql.ErrMalformPacket
 			}
 
-			args[i] = math.Float64frombits(binary.LittleEndian.Uint64(paramValues[pos : pos+8]))
+			f64 := math.Float64frombits(binary.LittleEndian.Uint64(paramValues[pos : pos+8]))
+			if math.IsNaN(f64) || math.IsInf(f64, 0) {
+				return mysql.NewDefaultError(mysql.ErrWrongArguments, "stmt_execute")
+			}
+			args[i] = f64
 			pos += 8
 			continue
 
